@@ -11,8 +11,8 @@ from runner import PropertyCheck, Broken, Violation
 class Check(PropertyCheck):
     pid = "C01"
     props_module = "Properties.Properties_C01"
-    extra_targets = ["Extract/ExtractEnc.vo", "Extract/ExtractDec.vo", "Extract/ExtractGen.vo", "Extract/ExtractPm.vo"]
-    extra_props = ["Properties.Properties_C02gen", "Properties.Properties_C02gen_total"]
+    extra_targets = ["Extract/ExtractEnc.vo", "Extract/ExtractDec.vo", "Extract/ExtractGen.vo", "Extract/ExtractPm.vo", "Extract/ExtractEncode.vo"]
+    extra_props = ["Properties.Properties_C02gen", "Properties.Properties_C02gen_total", "Properties.Properties_C02enc"]
     gen_files = enclib.ENC_GEN
     trusted_base = enclib.ENC_TRUSTED
     assumptions = ["divbwt() returns the last column of the sorted rotations and a valid primary index (checked per case by valid_idxb in the correspondence, not proved)"]
